@@ -1,2 +1,95 @@
-From Coq Require Import ZArith List.
-From Mofun Require Import Model.Atoms.
+(* C11 -- Extending a structure appends atoms and re-targets terms correctly.
+   Model: Model/Atoms.v (extend_types, extend_with, extend), mirroring Atoms.extend_types / _extend_extra_fields / extend. *)
+From Coq Require Import List Arith Bool ZArith.
+From Mofun Require Import Lib.NP Model.Atoms Proofs.DelProofs Proofs.ExtProofs.
+Import ListNotations.
+
+(* other's atoms that are not declared identical are appended in order after the existing ones; declared-identical atoms
+   are not duplicated; old positions/charges/groups untouched; mapped atoms adopt other's type (+ offset);
+   type tables and the cell are not touched by extend_with; every kind goes through extend_kind with the same index map *)
+Theorem C11_atoms : forall a o f m,
+  let r := extend_with a o f m in let T := to_add_of o m in
+  a_pos r = a_pos a ++ map (fun i => nth i (a_pos o) (0, 0, 0)%Z) T /\
+  a_chg r = a_chg a ++ map (fun i => nth i (a_chg o) 0%Z) T /\
+  a_grp r = a_grp a ++ map (fun i => nth i (a_grp o) 0%Z) T /\
+  a_typ r = fold_set (fun k => nth k (a_typ o) 0 + o_atom f) m (a_typ a) ++ map (fun i => nth i (a_typ o) 0 + o_atom f) T /\
+  a_xl r = merge_labels (a_xl a) (a_xl o) /\
+  t_el r = t_el a /\ t_mass r = t_mass a /\ t_lab r = t_lab a /\ t_pair r = t_pair a /\ a_cell r = a_cell a /\
+  bonds r = extend_kind (o_bond f) (phi_of a o m) (bonds a) (bonds o) /\
+  angles r = extend_kind (o_angle f) (phi_of a o m) (angles a) (angles o) /\
+  dihedrals r = extend_kind (o_dih f) (phi_of a o m) (dihedrals a) (dihedrals o) /\
+  impropers r = extend_kind (o_imp f) (phi_of a o m) (impropers a) (impropers o).
+Proof. exact extend_with_atoms. Qed.
+Print Assumptions C11_atoms.
+
+Theorem C11_mapped_atom_adopts_type : forall (o : atoms) (f : offsets) m k i l,
+  NoDup (map snd m) -> In (k, i) m -> i < length l ->
+  nth i (fold_set (fun k => nth k (a_typ o) 0 + o_atom f) m l) 0 = nth k (a_typ o) 0 + o_atom f.
+Proof. intros o f m k i l H1 H2 H3. exact (fold_set_mapped _ m k i 0 H1 H2 l H3). Qed.
+Print Assumptions C11_mapped_atom_adopts_type.
+
+Theorem C11_unmapped_atom_keeps_type : forall (o : atoms) (f : offsets) m i l,
+  (forall kv, In kv m -> snd kv <> i) ->
+  nth i (fold_set (fun k => nth k (a_typ o) 0 + o_atom f) m l) 0 = nth i l 0.
+Proof. intros o f m i l H. exact (fold_set_other _ m i 0 H l). Qed.
+Print Assumptions C11_unmapped_atom_keeps_type.
+
+(* the index map used for the terms: a non-mapped atom k of other is the appended atom at phi k; a mapped one is the existing atom *)
+Theorem C11_phi_appended : forall a o f m k, k < natoms o -> mem_key k m = false ->
+  nth (phi_of a o m k) (a_pos (extend_with a o f m)) (0, 0, 0)%Z = nth k (a_pos o) (0, 0, 0)%Z /\
+  natoms a <= phi_of a o m k < natoms (extend_with a o f m).
+Proof. exact phi_appended. Qed.
+Print Assumptions C11_phi_appended.
+Theorem C11_phi_mapped : forall a o m k i, assoc k m = Some i -> phi_of a o m k = i.
+Proof. exact phi_mapped. Qed.
+Print Assumptions C11_phi_mapped.
+
+(* terms of one kind: every term of other appears once, at the end, between the corresponding atoms, type shifted by the offset,
+   extra fields matched by label; an existing term on exactly the same atoms (forwards or reversed) is superseded; all other
+   existing terms are untouched and keep their order; labels merged; coefficient table untouched *)
+Theorem C11_terms : forall off phi k ko, kind_sized k -> kind_sized ko -> k_tup ko <> [] ->
+  let new := map (map phi) (k_tup ko) in
+  rows (extend_kind off phi k ko) =
+    filter (fun r => negb (overridden new (fst r))) (combine (k_tup k) (combine (k_typ k) (xf_self k ko)))
+    ++ combine new (combine (map (Nat.add off) (k_typ ko)) (xf_other k ko))
+  /\ k_xl (extend_kind off phi k ko) = merge_labels (k_xl k) (k_xl ko)
+  /\ k_coef (extend_kind off phi k ko) = k_coef k.
+Proof. exact extend_kind_rows. Qed.
+Print Assumptions C11_terms.
+
+Theorem C11_kind_without_new_terms : forall off phi k ko, k_tup ko = [] ->
+  k_tup (extend_kind off phi k ko) = k_tup k /\ k_typ (extend_kind off phi k ko) = k_typ k /\
+  k_xf (extend_kind off phi k ko) = xf_self k ko /\ k_xl (extend_kind off phi k ko) = merge_labels (k_xl k) (k_xl ko) /\
+  k_coef (extend_kind off phi k ko) = k_coef k.
+Proof. exact extend_kind_empty. Qed.
+Print Assumptions C11_kind_without_new_terms.
+
+(* default type merging: with the offsets computed by extend_types, a new term's type resolves to other's own coefficient text,
+   and an old term's type still resolves to its old text *)
+Theorem C11_new_type_resolves_to_others_text : forall k ko t d, compat_kind k ->
+  nth (num_types k + t) (k_coef k ++ k_coef ko) d = nth t (k_coef ko) d.
+Proof. exact resolve_new. Qed.
+Print Assumptions C11_new_type_resolves_to_others_text.
+Theorem C11_old_type_keeps_its_text : forall (c1 c2 : list Z) t d, t < length c1 -> nth t (c1 ++ c2) d = nth t c1 d.
+Proof. exact resolve_old. Qed.
+Print Assumptions C11_old_type_keeps_its_text.
+
+(* without the compatibility hypothesis the statement is false: a kind with terms but no coefficient table (ids up to max),
+   extended by a kind with a table, resolves the new term to the wrong entry -- this is what the property's domain excludes *)
+Example C11_compat_needed :
+  let k := mk_kind [[0;1]] [1] [[]] [] [] in let ko := mk_kind [[0;1]] [0] [[]] [] [7%Z] in
+  nth (num_types k + 0) (k_coef k ++ k_coef ko) 0%Z <> nth 0 (k_coef ko) 0%Z.
+Proof. vm_compute. discriminate. Qed.
+
+(* explicit zero offsets: ids are shared, nothing is shifted *)
+Theorem C11_shared_ids : forall l, map (Nat.add 0) l = l.
+Proof. exact add_zero_map. Qed.
+Print Assumptions C11_shared_ids.
+
+(* non-vacuity: an identity map, a superseded (reversed) bond and an untouched one *)
+Example C11_nonvacuous :
+  let k := mk_kind [[0;1];[1;2]] [0;1] [[];[]] [] [5%Z;6%Z] in
+  let ko := mk_kind [[1;0]] [0] [[]] [] [9%Z] in
+  let phi := fun i => match i with 0 => 0 | _ => 1 end in
+  rows (extend_kind 2 phi k ko) = [([1;2], (1, [])); ([1;0], (2, []))].
+Proof. vm_compute. reflexivity. Qed.
